@@ -22,7 +22,7 @@ MODEL_FILES = ["Model/Base.v", "Model/Bind.v", "Model/Checker.v", "Model/Elab.v"
 # 0 = holds, 1 = differs only inside a known-finding class, 2 = violated
 SPECS = {
     "spec_C17": "(if spec_C17 c wm h then 0%Z else 2%Z)",
-    "spec_C04": "(spec_C04_code c wm (snd (last h (None, empty_view))))",
+    "spec_C04": "(spec_C04_code_h (map fst h) c wm (snd (last h (None, empty_view))))",
     "spec_C14_stacks": "(if spec_C14_stacks c h then 0%Z else 2%Z)",
     "spec_C19_defs": "(if spec_C19_defs c h then 0%Z else 2%Z)",
     "spec_C03_selection": "(spec_C03_selection_code c wm h)",
@@ -30,7 +30,7 @@ SPECS = {
     "spec_C18_introspection": "(if spec_C18_introspection h then 0%Z else 2%Z)",
     "spec_C18_invlists": "(if spec_C18_invlists c wm h then 0%Z else 2%Z)",
     "spec_C14_kinds": "(if spec_C14_kinds c wm h then 0%Z else 2%Z)",
-    "spec_C16_order": "(if spec_C16_order c wm (snd (last h (None, empty_view))) then 0%Z else 2%Z)",
+    "spec_C16_order": "(if spec_C16_order (map fst h) c wm (snd (last h (None, empty_view))) then 0%Z else 2%Z)",
     # the hypothesis of the frame theorem for class statements, on the model's final world
     "own_lists_everywhere": "(if own_lists_everywhere wm then 0%Z else 2%Z)",
 }
